@@ -542,14 +542,16 @@ func (s *Sim) After(d time.Duration, name string, fn func()) {
 	s.evq = append(s.evq, &simEvent{at: s.now + d, seq: s.evseq, name: name, fn: fn})
 }
 
+// dueEvents returns the number of events eligible for the next step. Events
+// are delivered in (time, sequence) order - they model one ordered stream per
+// connection - so at most the earliest due event is eligible.
 func (s *Sim) dueEvents() int {
-	n := 0
 	for _, e := range s.evq {
 		if e.at <= s.now {
-			n++
+			return 1
 		}
 	}
-	return n
+	return 0
 }
 
 // popDueEvent removes and returns the i-th due event in (at, seq) order.
